@@ -37,6 +37,7 @@ GPATHS = {
     'zero-then-20': lambda k: Fr(0) if k == 0 else Fr(20),
     'step20-25': lambda k: Fr(20) if k < 3 else Fr(25),
     'alternating': lambda k: Fr(20) if k % 2 == 0 else Fr(30),
+    'const0.8': lambda k: Fr(4, 5),
 }
 RPATHS = {
     'const': lambda k: Fr(25, 1000),
@@ -105,16 +106,19 @@ def pc_closed(a1, a2, th, l0, l1, l2, G, R, V0, B0, n):
 # ---------------------------------------------------------------------------------------------
 # library runs
 
-def run_sim(kind, a1, a2, th, gname, H0, YDe0, n, tol):
+def run_sim(kind, a1, a2, th, gname, H0, YDe0, n, tol, gform='exogenous'):
     B = SIM if kind == 'SIM' else SIMEX1
-    obj = B('C1', use_book_exogenous=False)
+    obj = B('C1', use_book_exogenous=(gform == 'override'))      # 'override': the book's path is declared first, the user's afterwards
     m = obj.build_model()
     c = m['C1']
     hh, gov, tf = c['HH'], c['GOV'], c['TF']
     hh.AlphaIncome = a1
     hh.AlphaFin = a2
     tf.TaxRate = th
-    gov.SetExogenous('DEM_GOOD', path_text(GPATHS[gname], n + 2))
+    if gform == 'equation':
+        gov.SetEquationRightHandSide('DEM_GOOD', repr(float(GPATHS[gname](0))))     # a constant written as an equation
+    else:
+        gov.SetExogenous('DEM_GOOD', path_text(GPATHS[gname], n + 2))
     if H0:
         hh.AddInitialCondition('F', H0)
         gov.AddInitialCondition('F', -H0)
@@ -129,8 +133,8 @@ def run_sim(kind, a1, a2, th, gname, H0, YDe0, n, tol):
     return {'Y': g('GOOD__SUP_GOOD'), 'T': g('GOV__T'), 'YD': g('HH__AfterTax'), 'C': g('HH__DEM_GOOD'), 'H': g('HH__F')}
 
 
-def run_pc(a1, a2, th, l0, l1, l2, gname, rname, stocks, n, tol):
-    obj = PC('C1', use_book_exogenous=False)
+def run_pc(a1, a2, th, l0, l1, l2, gname, rname, stocks, n, tol, gform='exogenous'):
+    obj = PC('C1', use_book_exogenous=(gform == 'override'))
     m = obj.build_model()
     c = m['C1']
     hh, tre, tf, dep = c['HH'], c['TRE'], c['TF'], c['DEP']
@@ -140,9 +144,12 @@ def run_pc(a1, a2, th, l0, l1, l2, gname, rname, stocks, n, tol):
     hh.SetEquationRightHandSide('L0', '%0.4f' % l0)
     hh.SetEquationRightHandSide('L1', '%0.4f' % l1)
     hh.SetEquationRightHandSide('L2', '%0.4f' % l2)
-    tre.SetExogenous('DEM_GOOD', path_text(GPATHS[gname], n + 2))
+    if gform == 'equation':
+        tre.SetEquationRightHandSide('DEM_GOOD', repr(float(GPATHS[gname](0))))
+    else:
+        tre.SetExogenous('DEM_GOOD', path_text(GPATHS[gname], n + 2))
     dep.SetExogenous('r', path_text(RPATHS[rname], n + 2))
-    if stocks:
+    if stocks and gform != 'override':          # ('override': the book configuration has declared the book's stocks itself)
         hh.AddInitialCondition('F', 86.486)
         hh.AddInitialCondition('DEM_DEP', 64.865 if stocks != 'cash' else 0.0)
         hh.AddInitialCondition('AfterTax', 86.486)
@@ -231,13 +238,13 @@ def check_point(case):
         c2 = dict(case, tol=tol)
         try:
             if model in ('SIM', 'SIMEX1'):
-                ser = run_sim(model, case['a1'], case['a2'], case['th'], case['G'], case['H0'], case.get('YDe0', 0), n, tol)
+                ser = run_sim(model, case['a1'], case['a2'], case['th'], case['G'], case['H0'], case.get('YDe0', 0), n, tol, case.get('gform', 'exogenous'))
                 if model == 'SIM':
                     closed = sim_closed(a1, a2, th, GPATHS[case['G']], frac(case['H0']), n)
                 else:
                     closed = simex_closed(a1, a2, th, GPATHS[case['G']], frac(case['H0']), frac(case.get('YDe0', 0)), n)
             else:
-                ser = run_pc(case['a1'], case['a2'], case['th'], case['l0'], case['l1'], case['l2'], case['G'], case['r'], case['stocks'], n, tol)
+                ser = run_pc(case['a1'], case['a2'], case['th'], case['l0'], case['l1'], case['l2'], case['G'], case['r'], case['stocks'], n, tol, case.get('gform', 'exogenous'))
                 V0, B0 = (Fr('86.486'), Fr('64.865') if case['stocks'] != 'cash' else Fr(0)) if case['stocks'] else (Fr(0), Fr(0))
                 closed = pc_closed(a1, a2, th, frac(case['l0']), frac(case['l1']), frac(case['l2']), GPATHS[case['G']], RPATHS[case['r']], V0, B0, n)
         except Exception as e:
@@ -415,14 +422,23 @@ def run_unit(unit, tier):
     fam = unit['family']
     cases = []
     if fam in ('SIM', 'SIMEX1'):
-        for G, H0 in itertools.product(sorted(GPATHS), (0, 80)):
+        for G, H0 in itertools.product(sorted(g for g in GPATHS if g != 'const0.8'), (0, 80)):
             for y0 in ((0, 16) if fam == 'SIMEX1' else (0,)):
                 cases.append({'model': fam, 'a1': unit['a1'], 'a2': unit['a2'], 'th': unit['th'], 'G': G, 'H0': H0, 'YDe0': y0,
                               'horizon': unit['horizon']})
+        # other ways of giving the spending path: a constant written as an equation; the user's path declared after the book's
+        for G in ('const0.8', 'const20'):
+            cases.append({'model': fam, 'a1': unit['a1'], 'a2': unit['a2'], 'th': unit['th'], 'G': G, 'H0': 80, 'YDe0': 0,
+                          'horizon': unit['horizon'], 'gform': 'equation'})
+        cases.append({'model': fam, 'a1': unit['a1'], 'a2': unit['a2'], 'th': unit['th'], 'G': 'alternating', 'H0': 0,
+                      'YDe0': 16 if fam == 'SIMEX1' else 0, 'horizon': unit['horizon'], 'gform': 'override'})
     elif fam == 'PC':
         for l2, G, r, stocks in itertools.product([.01, 0.], ['const20', 'step20-25'], sorted(RPATHS), (False, True, 'cash')):
             cases.append({'model': 'PC', 'a1': unit['a1'], 'a2': unit['a2'], 'th': unit['th'], 'l0': unit['l0'], 'l1': unit['l1'], 'l2': l2,
                           'G': G, 'r': r, 'stocks': stocks, 'horizon': unit['horizon']})
+        base = {'model': 'PC', 'a1': unit['a1'], 'a2': unit['a2'], 'th': unit['th'], 'l0': unit['l0'], 'l1': unit['l1'], 'l2': .01, 'horizon': unit['horizon']}
+        cases.append(dict(base, G='const0.8', r='step', stocks=True, gform='equation'))
+        cases.append(dict(base, G='step20-25', r='step', stocks=True, gform='override'))
     else:
         b = BOUNDS[tier]
         for a1, a2, th, G, H0 in itertools.product(b['alpha1'], b['alpha2'], b['theta'], sorted(GPATHS), (0, 80)):
